@@ -712,6 +712,14 @@ def check_C11(tier, seed):
         stats, sens, problems = mcv2store.model_check_v1(wd, tier, mc_stats, variants=(tier != "quick"))
         if problems:
             raise vlib.ToolFailure("; ".join(problems))
+        # the structural grammar the stored blobs are judged by (BlobWF.tla) against the specification's own encoder: every sample
+        # payload is well-formed; for the layouts without trailing data no proper prefix and no extension is; a count that announces
+        # more entries than are there is not (ASSUMEs of MCBlobWF, evaluated by TLC when it starts)
+        rc, outp = vlib.run_tlc("MCBlobWF", vlib.cfg_text("Spec", {"Kinds": {"track_data1"}}), wd, "mcblobwf", workers=1, timeout=300)
+        res = vlib.parse_tlc(outp)
+        if not res["ok"]:
+            raise vlib.ToolFailure("MCBlobWF: the blob grammar disagrees with the specification's encoder, or TLC failed (see %s)" % outp)
+        mc_stats.append({"instance": "MCBlobWF (grammar of the eleven payload layouts vs. Enc)", "states": res["states"] or 0, "transitions": res["generated"] or 0})
 
         def smoke(s):
             st, sc, st2, sc2 = cache[(vlib.family(s), (3, 4), (3, 5, 13))]
@@ -765,7 +773,9 @@ def check_C11(tier, seed):
              "= number of membership rows; 2.x: per parent one sibling chain in listed order ending in 0, per playlist one "
              "entity chain in listed order, entities reference live rows of this database, Track.filename/fileType/"
              "origin columns agree with path / uuid / id",
-        assumptions=["stored performance blobs are decoded against the format spec by the C02/C04 checks",
+        assumptions=["track level: every stored version of every performance blob column (5 in 2.x, 6 in 1.x) is un-framed with plain zlib and "
+                     "judged by the structural grammar of its layout (BlobWF.tla: counts, entries, label lengths, fixed tail, nothing left over "
+                     "in 1.x); byte-level agreement with the format is decided by the C02/C04 checks",
                      "NULL is logged as a typed sentinel (-999999 / '<NULL>')"])
 
 
